@@ -76,7 +76,7 @@ type profile struct {
 }
 
 func baseProfile() profile {
-	return profile{faultFree: 0.5, maxClients: 2, pPolling: 0.7, pWT: 0.0, pEIO3: 0.2, pB64: 0.2, pJSONP: 0.1,
+	return profile{faultFree: 0.5, maxClients: 2, pPolling: 0.7, pWT: 0.3, pEIO3: 0.2, pB64: 0.2, pJSONP: 0.1,
 		pUpgrade: 0.5, senders: 2, sendsMax: 8, pBigPayload: 0.08, pBinary: 0.3, pPreEncoded: 0.1, pNoCompress: 0.15, pCB: 0.3,
 		clientSends: 4, pAppClose: 0.15, pServerClose: 0.05, pClientFault: 0.3, pClientClose: 0.1, pSilence: 0.1, pLatePong: 0.1,
 		pReent: 0, pCompression: 0.5, pPMD: 0.2, pCookie: 0.2, pCors: 0.15, pInitial: 0.15, smallHB: 0.6, pHttpServer: 0.3, fragP: 0.3,
@@ -166,14 +166,17 @@ func genOpts(g *G, p *profile) OptSpec {
 		o.MaxBuf = int64(g.pick(100000, 1000000, 300000))
 	}
 	o.Transports = []string{"polling", "websocket"}
-	if g.p(0.1) {
+	if g.p(p.pWT) {
+		o.Transports = []string{"polling", "websocket", "webtransport"}
+		if g.p(0.2) {
+			o.Transports = []string{"polling", "webtransport"}
+		}
+	} else if g.p(0.1) {
 		o.Transports = []string{"polling"}
 	}
 	o.AllowEIO3 = g.p(p.pEIO3 + 0.2)
 	if g.p(p.pCompression) {
 		o.CompThreshold = g.pick(0, 1, 10, 100, 1024)
-	} else if g.p(0.3) {
-		o.NoCompression = true
 	}
 	if g.p(p.pPMD) {
 		o.PMD, o.PMDThreshold = true, g.pick(0, 10, 1024)
@@ -266,14 +269,27 @@ func GenSession(prop string, seed uint64, thorough bool) *Scenario {
 		sc.Attach.Path = &path
 	}
 	nc := g.rng(1, p.maxClients)
-	wsOK := len(o.Transports) > 1
+	wsOK, wtOK := false, false
+	for _, t := range o.Transports {
+		wsOK = wsOK || t == "websocket"
+		wtOK = wtOK || t == "webtransport"
+	}
+	stream := func() string {
+		if wtOK && (!wsOK || g.p(0.5)) {
+			return "webtransport"
+		}
+		return "websocket"
+	}
 	for i := 0; i < nc; i++ {
 		c := ClientSpec{Name: fmt.Sprintf("c%d", i+1), StartMs: g.pick(0, 0, 5, 50, 200), EIO: 4, Transport: "polling"}
 		if o.AllowEIO3 && g.p(p.pEIO3/(p.pEIO3+0.2)) {
 			c.EIO = 3
 		}
-		if !g.p(p.pPolling) && wsOK {
-			c.Transport = "websocket"
+		if !g.p(p.pPolling) && (wsOK || wtOK) {
+			c.Transport = stream()
+			if c.Transport == "webtransport" {
+				c.EIO = 4 // the WebTransport handshake is revision 4 only
+			}
 		}
 		if g.p(p.pB64) {
 			c.B64 = true
@@ -313,8 +329,14 @@ func GenSession(prop string, seed uint64, thorough bool) *Scenario {
 				c.V3PingMs = 5
 			}
 		}
-		if c.Transport == "polling" && wsOK && o.AllowUpgrades && g.p(p.pUpgrade) {
-			c.Upgrade = "websocket"
+		if c.Transport == "polling" && (wsOK || wtOK) && o.AllowUpgrades && g.p(p.pUpgrade) {
+			c.Upgrade = stream()
+			if c.Upgrade == "webtransport" && c.EIO != 4 {
+				c.Upgrade = ""
+				if wsOK {
+					c.Upgrade = "websocket"
+				}
+			}
 			c.UpgradeAtMs = g.pick(0, 1, 10, 50, 100, 300, sc.HorizonMs/2)
 		}
 		ns := g.rng(0, p.clientSends)
